@@ -7,7 +7,7 @@ ID = "C01"
 MODULES = ["base", "Angle", "Epoch"]
 REQUIRED = ["iint", "Epoch.__init__", "Epoch.set", "Epoch._compute_jde", "Epoch._check_values",
             "Epoch.get_date", "Epoch.get_month", "Epoch.is_leap", "Epoch.is_julian", "Epoch.mjd"]
-THEOREMS = ["C01_construct", "C01_roundtrip", "C01_refused", "C01_consecutive", "C01_month_names", "C01_anchors"]
+THEOREMS = ["C01_construct", "C01_roundtrip", "C01_refused", "C01_consecutive", "C01_month_names", "C01_month_names_lastday", "C01_anchors"]
 PROOF_TIMEOUT = {"quick": 1500, "thorough": 3000}
 EXHAUSTIVE = True
 MANIFEST = {
@@ -24,7 +24,7 @@ CLAUSES = {
     "read-back returns exactly the date": "proved [B64, full domain]",
     "day < 1 or > month length refused with ValueError (d in -1..0 and len+1..33)": "proved [B64, full domain]",
     "consecutive dates exactly 1.0 apart incl. 4->15 Oct 1582": "proved [B64 + spec lemma jdn_next, all years]",
-    "month names (24 names x 4 spellings, every year, day 1)": "proved [B64, full domain]",
+    "month names (24 names x 4 spellings, every year, first and last day of the month)": "proved [B64, full domain]",
     "anchors -4712-01-01.5 = 0, MJD 0, J2000": "proved [B64]",
     "day count is a bijection stepping by 1 for ALL years (no upper bound)": "proved [spec, lia]",
 }
@@ -117,22 +117,34 @@ def search(rng, tier, deep):
                 r = check_date(Epoch, y, m, d)
                 if R.valid(y, m, d): nontriv += 1
                 if r:
-                    findings.append({"key": r[0], "what": r[1], "input": [y, m, d],
-                                     "replay": "PYTHONPATH=/repo /venv/bin/python -c \"from pymeeus.Epoch import Epoch; e=Epoch(%d,%d,%d); print(e.jde(), e.get_date())\"" % (y, m, d)})
+                    if r[0] == "step-wrong":      # same order of construction as the check (matters if state leaks between calls)
+                        y2, m2, d2 = R.next_date(y, m, d)
+                        rp = ("PYTHONPATH=/repo /venv/bin/python -c \"from pymeeus.Epoch import Epoch; a=Epoch(%d,%d,%d); "
+                              "b=Epoch(%d,%d,%d); print(b.jde()-a.jde())\"" % (y, m, d, y2, m2, d2))
+                    else:
+                        rp = ("PYTHONPATH=/repo /venv/bin/python -c \"from pymeeus.Epoch import Epoch; e=Epoch(%d,%d,%d); "
+                              "print(e.jde(), e.get_date())\"" % (y, m, d))
+                    findings.append({"key": r[0], "what": r[1], "input": [y, m, d], "replay": rp})
                     if len(findings) > 50: break
             if len(findings) > 50: break
         if len(findings) > 50: break
-    # month names
-    for y in [rng.randint(-4712, 6000) for _ in range(50)]:
+    # month names: first and last day of the month (29 Feb in leap years of either calendar)
+    name_years = [rng.randint(-4712, 6000) for _ in range(40)] + [-4712, -1000, 0, 4, 1500, 1582, 1600, 1900, 2000, 2024]
+    for y in name_years:
         for k in range(12):
             for s in (NAMES[k], LONG[k], LONG[k].upper(), " " + NAMES[k].lower() + " "):
-                n += 1
-                try:
-                    if Epoch(y, s, 1).jde() != R.jdn(y, k + 1, 1) - 0.5:
-                        findings.append({"key": "month-name", "what": "Epoch(%d,%r,1) differs from month %d" % (y, s, k + 1),
-                                         "input": [y, s, 1], "replay": ""})
-                except Exception as ex:
-                    findings.append({"key": "month-name", "what": "Epoch(%d,%r,1) raises %r" % (y, s, ex), "input": [y, s, 1], "replay": ""})
+                for d in (1, R.mlen(y, k + 1)):
+                    if not R.valid(y, k + 1, d): continue
+                    n += 1
+                    rp = ("PYTHONPATH=/repo /venv/bin/python -c \"from pymeeus.Epoch import Epoch; print(Epoch(%d,%r,%d).jde())\""
+                          % (y, s, d))
+                    try:
+                        if Epoch(y, s, d).jde() != R.jdn(y, k + 1, d) - 0.5:
+                            findings.append({"key": "month-name", "what": "Epoch(%d,%r,%d) differs from month number %d" % (y, s, d, k + 1),
+                                             "input": [y, s, d], "replay": rp})
+                    except Exception as ex:
+                        findings.append({"key": "month-name", "what": "Epoch(%d,%r,%d) raises %r although the date exists" % (y, s, d, ex),
+                                         "input": [y, s, d], "replay": rp})
     for expr, want in (("Epoch(-4712,1,1.5).jde()", 0.0), ("Epoch(1858,11,17).mjd()", 0.0), ("Epoch(2000,1,1.5).jde()", 2451545.0)):
         got = eval(expr, {"Epoch": Epoch})
         if got != want:
